@@ -55,6 +55,10 @@ type faultClient struct {
 	// of the next write to a level >= 1
 	cf        *compFault
 	cwOutcome int // 0 ok | 1 fail before | 2 fail after
+
+	// open/init faults (behind.go): while ph is set every level-0 call is counted;
+	// calls number ph.at .. ph.at+ph.n-1 fail in the variant ph.variant
+	ph *phaseFault
 }
 
 var _ litestream.ReplicaClient = (*faultClient)(nil)
@@ -69,6 +73,9 @@ func (c *faultClient) DeleteLTXFiles(ctx context.Context, a []*ltx.FileInfo) err
 	return c.inner.DeleteLTXFiles(ctx, a)
 }
 func (c *faultClient) OpenLTXFile(ctx context.Context, level int, minTXID, maxTXID ltx.TXID, offset, size int64) (io.ReadCloser, error) {
+	if c.ph != nil && level == 0 {
+		return c.ph.open(ctx, c, minTXID, maxTXID, offset, size)
+	}
 	if c.cf != nil && c.cf.matches(level, minTXID, maxTXID) {
 		return c.cf.open(ctx, c.inner, offset, size)
 	}
@@ -162,6 +169,9 @@ func (it *failingIter) Close() error {
 }
 
 func (c *faultClient) LTXFiles(ctx context.Context, level int, seek ltx.TXID, useMetadata bool) (ltx.FileIterator, error) {
+	if c.ph != nil && level == 0 {
+		return c.ph.list(ctx, c, seek, useMetadata)
+	}
 	if !c.armed || level != 0 {
 		return c.inner.LTXFiles(ctx, level, seek, useMetadata)
 	}
@@ -212,6 +222,9 @@ func (c *faultClient) WriteLTXFile(ctx context.Context, level int, minTXID, maxT
 			return nil, err // the stream itself failed: nothing took effect
 		}
 		return nil, errInjected
+	}
+	if c.ph != nil && level == 0 {
+		return c.ph.write(ctx, c, minTXID, maxTXID, rd)
 	}
 	if !c.armed || level != 0 {
 		return c.inner.WriteLTXFile(ctx, level, minTXID, maxTXID, rd)
